@@ -1,6 +1,117 @@
 -------------------------------- MODULE JC18 --------------------------------
-(* C18 — contract of the recorded events of this property (stub).           *)
+(* C18 — DER INTEGER and RLP codecs of Uint<N> are canonical and fail closed.*)
+(*                                                                          *)
+(* DerCanon(v), RlpCanon(v): the unique canonical encoding of a natural v.  *)
+(* Encoders must produce it.  A decoder applied to a byte string s returns  *)
+(*   ok(y)  only if s = Canon(y) and y < 2^bits,                            *)
+(*   err    only if there is no y < 2^bits with s = Canon(y),               *)
+(* and nothing else: a panic, "none" or a hang is never conforming.         *)
+(* Because Canon is injective, "exists y" is decided by decoding the one    *)
+(* candidate body of s and re-encoding it.                                  *)
+(*                                                                          *)
+(* Event classes (field op):                                                *)
+(*  der_enc   x, bits, cap   -> bytes | err   encode into a cap-octet buffer *)
+(*  der_len   x, bits        -> n             total encoded length           *)
+(*  der_vlen  x, bits        -> n             length of the content octets   *)
+(*  der_dec   src, bits      -> y | err       src is a complete TLV          *)
+(*  der_ref   src, bits      -> y | err       src = magnitude octets given   *)
+(*                                            to UintRef::new                *)
+(*  der_val   src, tag, bits -> y | err       src = content octets, tag      *)
+(*  rlp_enc   x, bits        -> bytes                                        *)
+(*  rlp_dec   src, bits      -> y | err       first item of src (the rlp     *)
+(*                                            crate's Rlp is a view: octets  *)
+(*                                            after the item are not read)   *)
 EXTENDS BigNat
 
-JudgeC18(e, rg) == FALSE
+Has(e, f) == f \in DOMAIN e
+
+FromBytesBE(s) == FromDigits(s, 256)          \* value of big-endian octets, leading zeros allowed
+Mag(v)         == Reverse(v)                  \* minimal big-endian magnitude; <<>> for zero
+IsPrefix(p, s) == Len(p) <= Len(s) /\ SubSeq(s, 1, Len(p)) = p
+
+--------------------------------------------------------------------------
+(* DER (X.690 §8.3, §10.1): INTEGER, definite minimal length, two's        *)
+(* complement content of minimal length; a non-negative value therefore    *)
+(* gets one 0x00 octet in front exactly when its top bit is set.           *)
+DerContent(v) == IF v = Zero THEN <<0>>
+                 ELSE IF v[Len(v)] >= 128 THEN <<0>> \o Mag(v) ELSE Mag(v)
+DerLen(n)     == IF n < 128 THEN <<n>>
+                 ELSE IF n < 256 THEN <<129, n>>
+                 ELSE <<130, n \div 256, n % 256>>                    \* n < 65536 here
+DerCanon(v)   == <<2>> \o DerLen(Len(DerContent(v))) \o DerContent(v)
+
+DerBody(s) == IF Len(s) < 2 THEN <<>>
+              ELSE IF s[2] < 128 THEN SubSeq(s, 3, Len(s))
+              ELSE IF s[2] = 129 /\ Len(s) >= 3 THEN SubSeq(s, 4, Len(s))
+              ELSE IF s[2] = 130 /\ Len(s) >= 4 THEN SubSeq(s, 5, Len(s))
+              ELSE <<>>
+DerValid(s, bits) == LET v == FromBytesBE(DerBody(s)) IN Fits(v, bits) /\ DerCanon(v) = s
+
+JudgeDerEnc(e) ==
+  LET c == DerCanon(e.x)
+  IN IF e.cap >= Len(c) THEN e.k = "ok" /\ e.bytes = c
+     ELSE e.k = "err"                                   \* buffer too small: an error, not a truncation
+
+JudgeDerLen(e)  == e.k = "ok" /\ e.n = Len(DerCanon(e.x))
+JudgeDerVLen(e) == e.k = "ok" /\ e.n = Len(DerContent(e.x))
+
+JudgeDerDec(e) ==
+  CASE e.k = "ok"  -> Fits(e.y, e.bits) /\ DerCanon(e.y) = e.src
+    [] e.k = "err" -> ~DerValid(e.src, e.bits)
+    [] OTHER -> FALSE
+
+(* UintRef::new(octets) denotes the natural FromBytesBE(octets) (it strips  *)
+(* leading zeros itself); the conversion succeeds exactly when it fits.     *)
+JudgeDerRef(e) ==
+  LET v == FromBytesBE(e.src)
+  IN IF Fits(v, e.bits) THEN e.k = "ok" /\ e.y = v
+     ELSE e.k = "err"
+
+JudgeDerVal(e) ==
+  LET v     == FromBytesBE(e.src)
+      valid == e.tag = 2 /\ Fits(v, e.bits) /\ DerContent(v) = e.src
+  IN CASE e.k = "ok"  -> valid /\ e.y = v
+       [] e.k = "err" -> ~valid
+       [] OTHER -> FALSE
+
+--------------------------------------------------------------------------
+(* RLP (Ethereum yellow paper, appendix B): a scalar is the byte array of   *)
+(* its minimal big-endian magnitude (empty for zero); a single octet below  *)
+(* 0x80 is its own encoding; up to 55 octets: 0x80+len; longer: 0xb7+len of *)
+(* len, then the minimal big-endian length.                                 *)
+RlpLenBE(n) == IF n < 256 THEN <<n>> ELSE <<n \div 256, n % 256>>      \* n < 65536 here
+RlpCanon(v) == LET m == Mag(v)
+                   n == Len(m)
+               IN IF n = 1 /\ m[1] < 128 THEN m
+                  ELSE IF n <= 55 THEN <<128 + n>> \o m
+                  ELSE <<183 + Len(RlpLenBE(n))>> \o RlpLenBE(n) \o m
+
+RlpBody(s) == IF s = <<>> THEN <<>>
+              ELSE IF s[1] < 128 THEN <<s[1]>>
+              ELSE IF s[1] <= 183 THEN SubSeq(s, 2, Len(s))
+              ELSE IF s[1] <= 191 /\ Len(s) >= 1 + (s[1] - 183) THEN SubSeq(s, 2 + (s[1] - 183), Len(s))
+              ELSE <<>>
+RlpValid(s, bits) == LET v == FromBytesBE(RlpBody(s)) IN Fits(v, bits) /\ RlpCanon(v) = s
+
+JudgeRlpEnc(e) == e.k = "ok" /\ e.bytes = RlpCanon(e.x)
+
+(* ok(y): the item at the front of src is the canonical encoding of y.      *)
+(* Octets behind the item are outside the Rlp view handed to the crate's    *)
+(* Decodable impl (documented behaviour of rlp::Rlp), so they are tolerated *)
+(* in both directions; an exact canonical encoding must be accepted.        *)
+JudgeRlpDec(e) ==
+  CASE e.k = "ok"  -> Fits(e.y, e.bits) /\ IsPrefix(RlpCanon(e.y), e.src)
+    [] e.k = "err" -> ~RlpValid(e.src, e.bits)
+    [] OTHER -> FALSE
+
+JudgeC18(e, rg) ==
+  CASE e.op = "der_enc"  -> JudgeDerEnc(e)
+    [] e.op = "der_len"  -> JudgeDerLen(e)
+    [] e.op = "der_vlen" -> JudgeDerVLen(e)
+    [] e.op = "der_dec"  -> JudgeDerDec(e)
+    [] e.op = "der_ref"  -> JudgeDerRef(e)
+    [] e.op = "der_val"  -> JudgeDerVal(e)
+    [] e.op = "rlp_enc"  -> JudgeRlpEnc(e)
+    [] e.op = "rlp_dec"  -> JudgeRlpDec(e)
+    [] OTHER -> FALSE
 =============================================================================
